@@ -1,0 +1,25 @@
+//go:build verif
+
+// Contracts for deductive verification (comment-only; compiled only with -tags verif).
+package protocol
+
+//@ func stringContainsCTLByte(s) r
+//@   props C03
+//@   ensures r == exists(k, 0, len(s), s[k] < ' ' || s[k] == 0x7f)
+//@   loop 0:
+//@     invariant 0 <= i && i <= len(s)
+//@     invariant forall(k, 0, i, !(s[k] < ' ' || s[k] == 0x7f))
+
+//@ func IsBadTrailer(key) r
+//@   props C03
+
+//@ func checkSchemeWhenCharIsColon(i, rawURL) scheme, path
+//@   props C03
+//@   requires 0 <= i && i < len(rawURL)
+
+//@ func getScheme(rawURL) scheme, path
+//@   props C03
+
+//@ func splitHostURI(host, uri) a, b, c
+//@   props C03
+//@   witness host = "", uri = "a:b"
